@@ -257,6 +257,8 @@ private:
             if( current_byte & 0x80 ) // run length chunk (high bit = 1)
             {
                 uint8_t chunk_length = current_byte - 127;
+                io_error_if( pixel + chunk_length * bytes_per_pixel > image_size
+                           , "Run-length packet exceeds the image in targa file." );
                 uint8_t pixel_data[4];
                 for( size_t channel = 0; channel < bytes_per_pixel; ++channel )
                 {
@@ -275,6 +277,8 @@ private:
 
                 // Write the next chunk_length pixels directly
                 size_t pixels_written = chunk_length * bytes_per_pixel;
+                io_error_if( pixel + pixels_written > image_size
+                           , "Raw packet exceeds the image in targa file." );
                 this->_io_dev.read( &image_data[pixel], pixels_written );
                 pixel += pixels_written;
             }
